@@ -167,7 +167,7 @@ def _quick_colours(shard, nshards):
 
 HEX_KINDS = {"hex6", "HEX6", "hexmix", "nohash", "hex3", "hex3nohash"}
 RGB_KINDS = {"rgb", "rgbws", "rgbpct"}
-TUPLE_KINDS = {"tuple", "list"}
+TUPLE_KINDS = {"tuple", "list", "unit-float-tuple", "hsl-float-tuple"}
 
 
 def expected_shape(tkind):
@@ -213,9 +213,25 @@ def mapping_judge(case):
                        "result": result if isinstance(result, str) else list(result), "success": success, "outcome": outcome}}
 
 
-def mapping_strategy():
+@st.composite
+def mapping_strategy(draw):
     pairs = st.one_of(optim.near_pairs(delta_lo=-0.3, delta_hi=0.2), optim.near_pairs(delta_lo=-0.3, delta_hi=0.2), optim.uniform_pairs())
-    return optim.spelled_pair_case(pairs, translucent_share=12)
+    case = draw(optim.spelled_pair_case(pairs, translucent_share=12))
+    if draw(st.integers(0, 14)) == 0:
+        # the library's float tuple spellings: unit floats (r/255, ...) and (hue, saturation, lightness) with s, l in [0,1]
+        from vlib.oracles import css as _ocss
+
+        rgb = draw(gc.rgb())
+        if draw(st.booleans()):
+            seq = tuple(round(c / 255.0, 3) for c in rgb)
+            kind = "unit-float-tuple"
+        else:
+            h, sat, lig = _ocss.rgb_to_hsl_exact(rgb)
+            seq = (max(2, int(round(float(h)))), round(float(sat), 3) + 0.0, round(float(lig), 3) + 0.0)
+            kind = "hsl-float-tuple"
+        case["text"] = gc.enc(seq if draw(st.booleans()) else list(seq))
+        case["tkind"] = kind
+    return case
 
 
 def subchecks(tier):
@@ -226,4 +242,8 @@ def subchecks(tier):
     else:
         subs.append(Enum("6b-readback-all-2^24-x-4-formats", block=_block_over(_all_colours, "readback-all"), judge=readback_judge, exhaustive=True))
     subs.append(Hyp("6a-format-mapping", mapping_strategy, mapping_judge, examples=6400 if q else 150000))
+    from vlib.envleg import api_env_judge, env_items
+
+    # formats and values must not depend on the locale or on the warning filters (child interpreters)
+    subs.append(Enum("environment-child-interpreters", judge=api_env_judge, items=env_items, shards=1))
     return subs
